@@ -10,7 +10,7 @@ _T = [
     "C11_set_cells_pointwise", "C11_modify_cells_pointwise", "C11_attached_layers_have_entries",
     "C11_set_in_place_modify_repoints", "C11_modify_cell_pointwise", "C11_write_through_live_reference",
     "C11_create_default", "C11_detach_keeps_values",
-    "C11_attach_exposes_layer", "C11_empty_view_is_emptiness", "C11_empties_readout_agrees",
+    "C11_attach_exposes_layer", "C11_empty_view_is_emptiness", "C11_empties_readout_agrees", "C11_unsafe_write_is_the_only_way",
     "C11_cells_exact", "C11_select_exact", "C11_select_filters_only", "C11_select_one_extreme",
     "C11_select_list_is_mask", "C11_only_empty_is_actual_emptiness",
     "C11_reserved_names_are_cell_class_attributes", "C11_cell_protocol_names_reserved",
@@ -60,8 +60,10 @@ ASSUMPTIONS = [
     "protocol preconditions answered by the harness without calling mesa (mirrored by the model): placing a placed agent, "
     "moving/removing an unplaced one, entering a full cell (half-done moves are C06/C08/C18 material of other model groups), "
     "cell-attribute access to names of the Cell class, unknown ids",
-    "the emptiness theorems and the oracle's emptiness clause assume the *user* does not overwrite, re-point, alias or "
-    "remove the built-in `empty` layer (Op.safe); such histories are still generated and compared with the model",
+    "the emptiness theorems and the oracle's emptiness clause assume the *user* does not overwrite, re-point or remove the "
+    "built-in `empty` layer / write through a reference that aliases the emptiness array (safeHist: judged in the state each "
+    "op is issued in; taking such a reference — grid.empty.data, legacy grid.empty_mask — and reading through it is allowed); "
+    "unsafe histories are still generated and compared with the model",
     "values: Python bools, small ints and multiples of 1/4 of any type into layers of any dtype (numpy casts them; the "
     "model says how); untyped operands of modify_cells are of the layer's own dtype (logical ops on bool layers, "
     "arithmetic on numeric layers), typed operands of any type with + - * max min and or xor (* only with integral "
